@@ -199,6 +199,7 @@ func xxhBig(args []string) error {
 	out := fs.String("out", "", "")
 	lo := fs.Int("below", 1, "first total is 2^32-below")
 	hi := fs.Int("above", 16, "last total is 2^32+above")
+	oneshot := fs.Bool("oneshot", false, "also hash the same bytes with single ChecksumZero calls (needs 4 GiB of memory)")
 	fs.Parse(args)
 	w, err := newNDW(*out)
 	if err != nil {
@@ -223,8 +224,26 @@ func xxhBig(args []string) error {
 	for i := range tail {
 		tail[i] = byte(200 - 3*i)
 	}
+	var whole []byte
+	if *oneshot {
+		whole = make([]byte, 0, 4096*mib+*hi)
+		for i := 0; i < 4095; i++ {
+			whole = append(whole, pat...)
+		}
+		whole = append(whole, pat[:mib-*lo]...)
+		whole = append(whole, tail...)
+	}
 	c := 0
 	for k := 0; k <= *lo+*hi; k++ {
+		if *oneshot {
+			// the one-shot function on the same 2^32 - below + k bytes; the reference is the stream digest
+			ry := *rs
+			ry.Buf = append([]byte(nil), rs.Buf...)
+			ry.Write(tail[:k])
+			n := 4095*mib + mib - *lo + k
+			c++
+			w.put(rec{"ev": "bigone", "case": c, "total": u64limbs(uint64(n)), "h": u32(lz4.VerifChecksumZero(whole[:n])), "refh": u32(ry.Sum())})
+		}
 		// clone both machines and finish with k more bytes, in one write and byte by byte
 		for _, single := range []bool{false, true} {
 			c++
